@@ -21,6 +21,21 @@ func (s *Sys) execProof(imm *iavl.ImmutableTree, key []byte) string {
 	memP, memErr := it.GetMembershipProof(key)
 	nonP, nonErr := it.GetNonMembershipProof(key)
 	anyP, anyErr := it.GetProof(key)
+	if imm != nil {
+		// MutableTree.GetVersionedProof(key, v) must give the proof of the COMMITTED version v,
+		// whatever the working tree holds at the moment
+		vp, vErr := s.tree.GetVersionedProof(key, imm.Version())
+		if (vErr == nil) != (anyErr == nil) {
+			return "pf(versioned-proof-error-differs)"
+		}
+		if vErr == nil {
+			a, e1 := vp.Marshal()
+			b, e2 := anyP.Marshal()
+			if e1 != nil || e2 != nil || !bytes.Equal(a, b) {
+				return "pf(versioned-proof-differs)"
+			}
+		}
+	}
 	kind := "none"
 	switch {
 	case memErr == nil && nonErr == nil:
